@@ -13,6 +13,8 @@ import time
 from random import Random
 
 CASE_WALL_S = int(os.environ.get("VERIF_CASE_WALL_S", "1500"))
+SHRINK_MAX_CASE_S = float(os.environ.get("VERIF_SHRINK_MAX_CASE_S", "20"))  # cases slower than this are not minimised
+SHRINK_BUDGET_S = float(os.environ.get("VERIF_SHRINK_BUDGET_S", "120"))
 
 
 def bootstrap(needs_rust=False):
@@ -97,21 +99,31 @@ def main(argv):
         rec = {"s": stratum, "i": i, "h": case_hash(case), "o": obs.to_json(), "t": round(time.time() - t0, 3)}
         if obs.violations:
             nviol += 1
-            if hasattr(prop, "shrink"):
-                try:
-                    faulthandler.dump_traceback_later(CASE_WALL_S, exit=True)
-                    case = shrink_case(prop, case, obs, stratum)
-                    obs2 = run_case(prop, case, stratum)
-                    if obs2.violations:
-                        obs = obs2
-                        rec["o"] = obs.to_json()
-                        rec["shrunk"] = True
-                finally:
-                    faulthandler.cancel_dump_traceback_later()
+            # the witness is on disk before any minimisation starts: shrinking must never lose a violation
             rec["case"] = pack(case)
             rec["repr"] = short(case, 4000)
             if hasattr(prop, "finding_keys"):
                 rec["keys"] = sorted(prop.finding_keys(case, obs))
+            out.write(json.dumps(rec) + "\n")
+            out.flush()
+            cls0 = obs.violations[0][0]
+            slow = (time.time() - t0) > SHRINK_MAX_CASE_S or "hang" in cls0 or "no-return" in cls0
+            if hasattr(prop, "shrink") and not slow:
+                try:
+                    faulthandler.dump_traceback_later(CASE_WALL_S, exit=True)
+                    small = shrink_case(prop, case, obs, stratum)
+                    obs2 = run_case(prop, small, stratum)
+                    if obs2.violations:
+                        rec = dict(rec, o=obs2.to_json(), shrunk=True, case=pack(small), repr=short(small, 4000))
+                        if hasattr(prop, "finding_keys"):
+                            rec["keys"] = sorted(prop.finding_keys(small, obs2))
+                        out.write(json.dumps(rec) + "\n")  # same (stratum, index): the runner keeps the last record
+                        out.flush()
+                except Exception:
+                    pass
+                finally:
+                    faulthandler.cancel_dump_traceback_later()
+            continue
         elif i - start < 2 or obs.inconclusive:
             rec["repr"] = short(case, 1200)
         out.write(json.dumps(rec) + "\n")
@@ -126,11 +138,12 @@ def shrink_case(prop, case, obs, stratum, max_runs=150):
     cls = obs.violations[0][0]
     runs = 0
     improved = True
-    while improved and runs < max_runs:
+    t_end = time.time() + SHRINK_BUDGET_S
+    while improved and runs < max_runs and time.time() < t_end:
         improved = False
         for cand in prop.shrink(case):
             runs += 1
-            if runs > max_runs:
+            if runs > max_runs or time.time() > t_end:
                 break
             try:
                 o = run_case(prop, cand, stratum)
